@@ -20,6 +20,7 @@ import (
 	"runtime"
 	"strings"
 	"sync"
+	"sync/atomic"
 	"time"
 
 	"github.com/gofrs/uuid"
@@ -66,6 +67,7 @@ type flowPlan struct {
 	exitFrom int  // 0: the requesting goroutine exits the process; 1: another goroutine
 	errPath  bool // the blocking node answers on its error port after release
 	abandon  bool // aborted flight: the requester never reads Receive() again (otherwise it drains it, as packet.Send would)
+	watch    bool // with the agent: a process watcher and a frame watcher are registered (Watchers.OnProcess / OnFrame run)
 }
 
 func (p flowPlan) String() string {
@@ -81,6 +83,8 @@ type flowResult struct {
 	frames    int
 	gor       []string
 	timeout   string
+	onProc    int64 // calls of the process watcher
+	onFrame   int64 // calls of the frame watcher
 }
 
 func (r flowResult) clean(base int) bool {
@@ -182,6 +186,7 @@ func (t *agentTap) keys(a *uruntime.Agent, procs []*process.Process) {
 func runFlow(p flowPlan) (res flowResult, base int, alines [][2]string) {
 	base = len(uniflowGoroutines())
 	var mainProc *process.Process
+	var watchProc, watchFrame int64
 
 	entered := make(chan struct{}, 16)
 	gate := make(chan struct{})
@@ -210,6 +215,12 @@ func runFlow(p flowPlan) (res flowResult, base int, alines [][2]string) {
 	var tap *agentTap
 	if p.agent {
 		agent = uruntime.NewAgent()
+		if p.watch {
+			agent.Watch(uruntime.NewProcessWatcher(func(*process.Process) { atomic.AddInt64(&watchProc, 1) }))
+			fw := uruntime.NewFrameWatcher(func(*uruntime.Frame) { atomic.AddInt64(&watchFrame, 1) })
+			agent.Watch(fw)
+			agent.Watch(fw) // already registered: false
+		}
 		tap = &agentTap{procs: map[*process.Process]int{}, marked: map[*process.Process]bool{}, pcks: map[*packet.Packet]int{}}
 		for i, n := range nodes {
 			in, out, er := n.In(node.PortIn), n.Out(node.PortOut), n.Out(node.PortError)
@@ -367,6 +378,7 @@ func runFlow(p flowPlan) (res flowResult, base int, alines [][2]string) {
 		time.Sleep(2 * time.Millisecond)
 	}
 
+	res.onProc, res.onFrame = atomic.LoadInt64(&watchProc), atomic.LoadInt64(&watchFrame)
 	if tap != nil && res.timeout == "" {
 		// at rest after Exit: the agent's two maps against the model fed the tap's log
 		tap.keys(agent, procs)
@@ -407,7 +419,7 @@ func runFlows(c *lib.Ctx, rng *lib.RNG, fails *[]lib.OracleFail) []lib.Mismatch 
 		if i < len(fixed) {
 			p = fixed[i]
 		} else {
-			p = flowPlan{nodes: rng.Range(1, 3), requests: rng.Range(1, 4), agent: rng.Bool(), abort: rng.Chance(3, 5), exitFrom: rng.Intn(2), errPath: rng.Chance(1, 4), abandon: rng.Chance(1, 4)}
+			p = flowPlan{nodes: rng.Range(1, 3), requests: rng.Range(1, 4), agent: rng.Bool(), abort: rng.Chance(3, 5), exitFrom: rng.Intn(2), errPath: rng.Chance(1, 4), abandon: rng.Chance(1, 4), watch: rng.Bool()}
 			p.blockAt = rng.Intn(p.nodes)
 		}
 		r, base, alines := runFlow(p)
@@ -418,6 +430,8 @@ func runFlows(c *lib.Ctx, rng *lib.RNG, fails *[]lib.OracleFail) []lib.Mismatch 
 			}
 			c.Hit("flow-agent-model-case")
 		}
+		c.Hist["flow-agent-watcher-onprocess-calls"] += int(r.onProc)
+		c.Hist["flow-agent-watcher-onframe-calls"] += int(r.onFrame)
 		c.Count("flow:" + p.String())
 		c.Hit(fmt.Sprintf("flow-abort-%v-agent-%v", p.abort, p.agent))
 		add := func(class, what string) {
